@@ -1349,7 +1349,7 @@ fn hvar_bytes(ivs: &[u8], adv: Option<&[u8]>, lsb: Option<&[u8]>) -> Vec<u8> {
 fn test_metrics(c: &MetricsCase, stats: &Stats) -> CaseResult {
     run_metrics(c, false, stats)
 }
-/// the same fonts with every advance >= 32768 font units: exhibits the listed finding on unscaled metrics
+/// the same fonts with every advance >= 32768 font units (regression stage: unscaled values used to wrap in 16.16)
 fn test_metrics_large(c: &MetricsCase, stats: &Stats) -> CaseResult {
     run_metrics(c, true, stats)
 }
@@ -1493,13 +1493,11 @@ fn run_metrics(c: &MetricsCase, large: bool, stats: &Stats) -> CaseResult {
         }
         expected.push(per_glyph);
     }
-    // skrifa's unscaled / scaled results are 16.16 values: keep |value| * scale inside that range (domain restriction, see report)
+    // keep scaled results below 30000 px and ppem/upem below 400 (the 16.16 scale factor's range)
     let maxabs = expected.iter().flatten().map(|(a, l)| a.unsigned_abs().max(l.unsigned_abs())).max().unwrap_or(0).max(1) as u64;
     let limit = (30_000u64 * 64 * upem as u64 / maxabs).min(400 * 64 * upem as u64).max(1);
     let ppem64 = (c.ppem64.max(1) as u64).min(limit) as u32;
     let ppem = ppem64 as f32 / 64.0;
-    let mut deferred: Option<Fail> = None;
-
     for (li, loc) in locs.iter().enumerate() {
         let coords: Vec<F2Dot14> = loc.iter().map(|b| F2Dot14::from_bits(*b)).collect();
         let un = font.glyph_metrics(Size::unscaled(), LocationRef::new(&coords));
@@ -1509,15 +1507,11 @@ fn run_metrics(c: &MetricsCase, large: bool, stats: &Stats) -> CaseResult {
             let (ea, el) = expected[li][i];
             for (name, want, got_u, got_s) in [("advance_width", ea, un.advance_width(gid), sc.advance_width(gid)), ("left_side_bearing", el, un.left_side_bearing(gid), sc.left_side_bearing(gid))] {
                 let ctx = || format!("glyph {i} of {g} (numberOfHMetrics {n_long}, mode {}, adv map count {adv_count}, lsb map count {lsb_count}) at {loc:?}", c.mode);
-                if want.unsigned_abs() < 32768 {
-                    if got_u != Some(want as f32) {
-                        return Err(fail(&format!("metrics-{name}-unscaled"), format!("{}: {name} = {got_u:?}, expected base + delta = {want} (base {:?})", ctx(), base(i))));
-                    }
-                } else if !large {
-                    // listed finding (16.16 wrap of unscaled values >= 32768): not checked in the main stage
-                    stats.class_n("excluded_known", 1);
-                } else if got_u != Some(want as f32) {
-                    deferred.get_or_insert(fail(&format!("metrics-unscaled-value>=32768|{name}"), format!("{}: {name} = {got_u:?}, expected base + delta = {want} (base {:?})", ctx(), base(i))));
+                if got_u != Some(want as f32) {
+                    return Err(fail(&format!("metrics-{name}-unscaled"), format!("{}: {name} = {got_u:?}, expected base + delta = {want} (base {:?})", ctx(), base(i))));
+                }
+                if want.unsigned_abs() >= 32768 {
+                    stats.class("metrics:value>=32768");
                 }
                 let exact = want as f64 * ppem64 as f64 / (64.0 * upem as f64);
                 let tol = ((want as f64).abs() / 128.0 + 0.5) / 65536.0 + exact.abs() / 8_388_608.0 + 1e-9;
@@ -1542,9 +1536,6 @@ fn run_metrics(c: &MetricsCase, large: bool, stats: &Stats) -> CaseResult {
             }
             stats.class("metrics:gid>=numGlyphs");
         }
-    }
-    if let Some(f) = deferred {
-        return Err(f);
     }
     stats.class(match c.mode { 0 => "metrics:mode0-implicit-no-maps", 1 => "metrics:mode1-advance-map", 2 => "metrics:mode2-advance+lsb-maps", _ => "metrics:mode3-implicit+lsb-map" });
     if n_long < g {
@@ -1576,7 +1567,7 @@ fn main() {
     ctx.assume("exact model: rational tent scalars and sums in i128; fixed-point bound 0.5 + sum |delta| * (fractional axes) * 2^-17 (one 16.16 rounding per axis, one final rounding); float bound 2^-23 relative per rounding step");
     ctx.assume("normalize and avar results may differ from the exact rational value by at most 2^-16 (rounding mode of the 16.16 division is not part of the property); exact at min/default/max, at map points, and when clamped");
     ctx.assume("location: user values are multiples of 2^-16 (exact in 16.16); checked as to_2dot14(apply(normalize(v))) composed from the separately checked parts with the harness's own (x+2)>>2, and against a bracket from the exact formulas");
-    ctx.assume("metrics domain: every region is inactive at the default location (skrifa treats the all-zero location as 'no variations'); a glyph's delta magnitude < 32768 (HVAR deltas are returned as 16.16); scaled results < 30000 px; \
+    ctx.assume("metrics domain: every region is inactive at the default location (skrifa treats the all-zero location as 'no variations'); a glyph's delta magnitude < 32768 (HVAR deltas are returned as 16.16); scaled results < 30000 px, ppem/upem < 400; \
         ppem is a multiple of 1/64; scaled tolerance (|v|/128 + 0.5) * 2^-16 + 2^-23 relative (16.16 scale factor and result)");
     ctx.assume("sums of deltas that do not fit i32 are not checked against compute_delta (no specified value); implicit-index mode is used with at most 65535 rows");
     let q = ctx.quick();
